@@ -133,6 +133,8 @@ class Gen:
                 continue
             locals_.append([ln, gen_size_expr(rng, scope) if self.qubits else gen_expr(rng, scope + [l[0] for l in locals_], 2)])
         scope_l = scope + [l[0] for l in locals_]
+        if len(locals_) >= 2 and rng.random() < 0.5:
+            locals_.reverse()      # listed against their dependency order (w = ... L ..., then L = ... n ...)
         n_out = rng.randint(0, 2)
         for k in range(n_out):
             if self.qubits:
